@@ -22,6 +22,9 @@ def variants():
         for name in ("n", "", "x" * 32, "שלום"):
             yield (st, "aabbcc", "00", "1.2.3.4", "AA:BB:CC:DD:EE:FF", name)
         yield (st, "000000", "ff", "0.0.0.0", "00:00:00:00:00:00", "n")
+    # the address as a caller may have it: zero-padded octets, a host name, an IPv6 address, nothing yet; the MAC in other spellings
+    for ip, mac in (("192.168.001.033", "aa:bb:cc:dd:ee:ff"), ("switcher-boiler.local", "AA-BB-CC-DD-EE-FF"), ("::1", "aabbccddeeff"), ("", ""), ("255.255.255.255", "AA:BB:CC:DD:EE:FF")):
+        yield (DeviceState.ON, "aabbcc", "18", ip, mac, "n")
 
 
 def construct(cn, t):
@@ -70,6 +73,19 @@ def exercise():
             s = world.ScriptedApi(t2, "ab1c2d", "18")
             await s.run(9 if t2 else 11, [], [bytes(8) + b"\x01\x02\x03\x04" + bytes(12), bytes(120)], 1_700_000_000)
     asyncio.run(go())
+    # a host that refuses one of the two control ports and accepts the other (a Runner asked as if it were a plug, and the other way round)
+    async def wrong_port():
+        ip = world.loopback_ip(19)
+        for listen, cls in ((10000, world.SwitcherType1Api), (9957, world.SwitcherType2Api)):
+            dev = world.FakeDevice(ip, listen); await dev.listen(True)
+            try:
+                api = cls(ip, "ab1c2d", "18")
+                try: await asyncio.wait_for(api.connect(), 5)
+                except Exception: pass
+                try: await asyncio.wait_for(api.disconnect(), 5)
+                except Exception: pass
+            finally: await dev.listen(False)
+    asyncio.run(wrong_port())
     # one device id heard as members of different families (a replaced device, a spoofed id): what the callback gets is an object of the class of
     # ITS type's category, every time
     seen = []
